@@ -127,6 +127,62 @@ fn substitute_qubit(qubit: &mut Qubit, qubit_expansions: &HashMap<&String, Qubit
     }
 }
 
+/// Replace the variable qubits of an instruction by the concrete qubits they are bound to.
+fn substitute_qubits(instruction: &mut Instruction, qubit_expansions: &HashMap<&String, Qubit>) {
+    match instruction {
+        Instruction::Gate(Gate { qubits, .. })
+        | Instruction::Delay(Delay { qubits, .. })
+        | Instruction::Capture(Capture {
+            frame: FrameIdentifier { qubits, .. },
+            ..
+        })
+        | Instruction::RawCapture(RawCapture {
+            frame: FrameIdentifier { qubits, .. },
+            ..
+        })
+        | Instruction::SetFrequency(SetFrequency {
+            frame: FrameIdentifier { qubits, .. },
+            ..
+        })
+        | Instruction::SetPhase(SetPhase {
+            frame: FrameIdentifier { qubits, .. },
+            ..
+        })
+        | Instruction::SetScale(SetScale {
+            frame: FrameIdentifier { qubits, .. },
+            ..
+        })
+        | Instruction::ShiftFrequency(ShiftFrequency {
+            frame: FrameIdentifier { qubits, .. },
+            ..
+        })
+        | Instruction::ShiftPhase(ShiftPhase {
+            frame: FrameIdentifier { qubits, .. },
+            ..
+        })
+        | Instruction::Pulse(Pulse {
+            frame: FrameIdentifier { qubits, .. },
+            ..
+        })
+        | Instruction::Fence(Fence { qubits }) => {
+            // Swap all qubits for their concrete implementations
+            for qubit in qubits {
+                substitute_qubit(qubit, qubit_expansions);
+            }
+        }
+        Instruction::Measurement(Measurement { qubit, .. })
+        | Instruction::Reset(Reset {
+            qubit: Some(qubit), ..
+        }) => substitute_qubit(qubit, qubit_expansions),
+        Instruction::SwapPhases(SwapPhases { frame_1, frame_2 }) => {
+            for qubit in frame_1.qubits.iter_mut().chain(&mut frame_2.qubits) {
+                substitute_qubit(qubit, qubit_expansions);
+            }
+        }
+        _ => {}
+    }
+}
+
 struct MatchedCalibration<'a> {
     pub calibration: &'a CalibrationDefinition,
     pub fixed_qubit_count: usize,
@@ -365,59 +421,7 @@ impl Calibrations {
                         let mut instructions = calibration.instructions.clone();
 
                         for instruction in instructions.iter_mut() {
-                            match instruction {
-                                Instruction::Gate(Gate { qubits, .. })
-                                | Instruction::Delay(Delay { qubits, .. })
-                                | Instruction::Capture(Capture {
-                                    frame: FrameIdentifier { qubits, .. },
-                                    ..
-                                })
-                                | Instruction::RawCapture(RawCapture {
-                                    frame: FrameIdentifier { qubits, .. },
-                                    ..
-                                })
-                                | Instruction::SetFrequency(SetFrequency {
-                                    frame: FrameIdentifier { qubits, .. },
-                                    ..
-                                })
-                                | Instruction::SetPhase(SetPhase {
-                                    frame: FrameIdentifier { qubits, .. },
-                                    ..
-                                })
-                                | Instruction::SetScale(SetScale {
-                                    frame: FrameIdentifier { qubits, .. },
-                                    ..
-                                })
-                                | Instruction::ShiftFrequency(ShiftFrequency {
-                                    frame: FrameIdentifier { qubits, .. },
-                                    ..
-                                })
-                                | Instruction::ShiftPhase(ShiftPhase {
-                                    frame: FrameIdentifier { qubits, .. },
-                                    ..
-                                })
-                                | Instruction::Pulse(Pulse {
-                                    frame: FrameIdentifier { qubits, .. },
-                                    ..
-                                })
-                                | Instruction::Fence(Fence { qubits }) => {
-                                    // Swap all qubits for their concrete implementations
-                                    for qubit in qubits {
-                                        substitute_qubit(qubit, &qubit_expansions);
-                                    }
-                                }
-                                Instruction::Measurement(Measurement { qubit, .. })
-                                | Instruction::Reset(Reset {
-                                    qubit: Some(qubit), ..
-                                }) => substitute_qubit(qubit, &qubit_expansions),
-                                Instruction::SwapPhases(SwapPhases { frame_1, frame_2 }) => {
-                                    for qubit in frame_1.qubits.iter_mut().chain(&mut frame_2.qubits)
-                                    {
-                                        substitute_qubit(qubit, &qubit_expansions);
-                                    }
-                                }
-                                _ => {}
-                            }
+                            substitute_qubits(instruction, &qubit_expansions);
 
                             instruction.apply_to_expressions(|expr| {
                                 *expr = expr.substitute_variables(&variable_expansions);
@@ -437,8 +441,15 @@ impl Calibrations {
 
                 match matching_calibration {
                     Some(calibration) => {
+                        let mut qubit_expansions: HashMap<&String, Qubit> = HashMap::new();
+                        if let Qubit::Variable(identifier) = &calibration.identifier.qubit {
+                            qubit_expansions.insert(identifier, measurement.qubit.clone());
+                        }
+
                         let mut instructions = calibration.instructions.clone();
                         for instruction in instructions.iter_mut() {
+                            substitute_qubits(instruction, &qubit_expansions);
+
                             match instruction {
                                 Instruction::Pragma(pragma)
                                     if pragma.name == "LOAD-MEMORY"
@@ -448,9 +459,18 @@ impl Calibrations {
                                         pragma.data = Some(target.to_quil_or_debug())
                                     }
                                 }
-                                Instruction::Capture(capture) => {
+                                // Only references to the calibration's target name stand for the
+                                // measurement target; other memory references stay as written.
+                                Instruction::Capture(Capture {
+                                    memory_reference, ..
+                                })
+                                | Instruction::RawCapture(RawCapture {
+                                    memory_reference, ..
+                                }) if Some(&memory_reference.name)
+                                    == calibration.identifier.target.as_ref() =>
+                                {
                                     if let Some(target) = &measurement.target {
-                                        capture.memory_reference = target.clone()
+                                        *memory_reference = target.clone()
                                     }
                                 }
                                 _ => {}
